@@ -1988,7 +1988,14 @@ impl<'a> Socket<'a> {
                 }
 
                 self.remote_seq_no = repr.seq_number + 1;
-                self.remote_last_seq = self.local_seq_no + 1;
+                if repr.ack_number.is_some() {
+                    // Our SYN has been acknowledged.
+                    self.remote_last_seq = self.local_seq_no + 1;
+                }
+                // (On a bare SYN `remote_last_seq` stays as it is: if our SYN is in flight the
+                // retransmission timer is running, and if it is not (never sent yet, or rewound
+                // by a timeout) the SYN|ACK is due right away. Pretending it was in flight
+                // left the socket in SYN-RECEIVED with nothing sent and no timer.)
                 self.remote_last_ack = Some(repr.seq_number);
                 self.remote_has_sack = repr.sack_permitted;
                 self.remote_win_scale = repr.window_scale;
